@@ -72,7 +72,11 @@ func VerifH17() {
 	// handler's own work can end with (its own deadline, its own upstream): the
 	// decorations it put on top reach the client all the same
 	if vParam("BASES", 0) == 1 {
-		switch vChoose(6) {
+		switch vChoose(7) {
+		case 6:
+			// an error relayed from an upstream database driver: it has methods of
+			// its own (SQLState, Severity, ...) that are not this package's decorators
+			err = vUpstreamErr{}
 		case 1:
 			err = context.Canceled
 		case 2:
@@ -229,6 +233,17 @@ func VerifH17() {
 		vReach("constraint")
 	}
 }
+
+// vUpstreamErr looks like the error type of a database driver (pgconn.PgError,
+// pq.Error): it carries an SQLSTATE and a severity of its own behind methods.
+// Only this package's decorators decide what the client is told.
+type vUpstreamErr struct{}
+
+func (vUpstreamErr) Error() string    { return "upstream: duplicate key" }
+func (vUpstreamErr) SQLState() string { return "23505" }
+func (vUpstreamErr) Severity() string { return "FATAL" }
+func (vUpstreamErr) Code() string     { return "23505" }
+func (vUpstreamErr) Hint() string     { return "upstream hint" }
 
 // vErrorThroughSession serves one client cycle whose callback fails with err
 // and returns everything the server wrote.
